@@ -18,7 +18,8 @@ B. the contract of the reference (and hence, through A, of every backend on
 C. aliasing: values read from a copying backend are not aliased; memdb is the
    counterexample;
 D. PrefixDB over any backend with a non-empty prefix is the ordered map of the
-   prefixed keys (all bounds, both directions).
+   prefixed keys (all bounds, both directions);
+E. SnapshotDB is a read-only view of its snapshot.
 
 Only theorems and their `example` witnesses here; lemmas are in `Proofs/C29*.lean`.
 -/
@@ -357,5 +358,22 @@ theorem prefix_set_del_view (st : State) (hs : OMap.Sorted st.db) (p : Bytes) (h
     intro k'
     rw [get_pview, OMap.get_del, OMap.get_del, get_pview]
     by_cases hk : k = k' <;> simp [hk]
+
+/-! ## E. SnapshotDB -/
+
+/-- `SnapshotDB` (snapshot_db.go) is a read-only view of its snapshot: reads
+answer from the frozen map (hence, by `snapshot_stable`, from the state at the
+time the snapshot was taken), `Set/Delete` panic and leave everything as it
+is, and its batches are the no-op batch whose `Write` panics. -/
+theorem snapshot_db_is_read_only_view (st : State) (s : Nat) (m : PMap) (h : lookup st.snaps s = some m)
+    (k : Bytes) (asc : Bool) (lo hi : Option Bytes) (c : Cell) (bt : Batch) (hbt : bt.kind = .noop) :
+    dbGet st (.snapdb s) k = some (OMap.get m k) ∧
+    dbHas st (.snapdb s) k = some (OMap.get m k).isSome ∧
+    dbIter st (.snapdb s) asc lo hi = .ok (OMap.range m lo hi asc) ∧
+    dbSet st (.snapdb s) k c = (st, .panic "readonly") ∧
+    dbDel st (.snapdb s) k = (st, .panic "readonly") ∧
+    dbBatch (.snapdb s) = (.noop, []) ∧
+    batchStage st bt false k c = (st, .ok) ∧ batchWrite st bt = (st, .panic "readonly") := by
+  simp [dbGet, dbHas, dbIter, dbSet, dbDel, dbBatch, batchStage, batchWrite, h, hbt]
 
 end GnoVerif.C29
